@@ -28,7 +28,8 @@ def name_in_repr(name, rep):
     if rep == 'uri':
         return '/' + '/'.join(name)
     if rep == 'strlist':
-        return list(name)
+        # in a component list a str is a literal generic value, not URI syntax: typed/escaped ones go as bytes
+        return [s_ if s_.isalnum() else bytes(c) for s_, c in zip(name, comps)]
     if rep == 'bytes':
         return [bytes(c) for c in comps]
     if rep == 'bytearray':
@@ -38,7 +39,7 @@ def name_in_repr(name, rep):
     if rep == 'mixed':
         out = []
         for i, (s, c) in enumerate(zip(name, comps)):
-            out.append([s, bytes(c), bytearray(c), memoryview(bytes(c))][i % 4])
+            out.append([s if s.isalnum() else bytes(c), bytes(c), bytearray(c), memoryview(bytes(c))][i % 4])
         return out
     if rep == 'wire':
         return tlvref.name_tlv(comps)
@@ -69,6 +70,10 @@ def content_bytes(spec):
     raise HarnessError('bad content spec')
 
 
+class DanglingRef(Exception):
+    """a scripted operation refers to something the system has not produced (yet): the operation is skipped"""
+
+
 class Materializer:
     """Packet specs -> wire bytes (inner network packets with the real encoder; LP envelopes and
     mutations with the independent writer)."""
@@ -88,8 +93,18 @@ class Materializer:
 
     def _build(self, spec):
         k = spec['k']
+        if k == 'interest_as_sent':
+            w = self.world.express_wire.get(spec['iid'])
+            if w is None:
+                raise DanglingRef('interest_as_sent before the Interest was sent')
+            return w
         if k == 'data':
             name = [bytes(c) for c in comps_of(spec['name'])]
+            if spec.get('reply_to') is not None:
+                w = self.world.express_wire.get(spec['reply_to'])
+                if w is None:
+                    raise DanglingRef('reply_to before the Interest was sent')
+                name = [bytes(c) for c in tlvref.parse_interest(w).name] + name
             mi = enc.MetaInfo(content_type=spec.get('ctype', 0), freshness_period=spec.get('fresh'),
                               final_block_id=None)
             wire = enc.make_data(name, mi, content_bytes(spec.get('content', 0)),
@@ -324,6 +339,7 @@ class PipeWorld(World):
         self.handlers = {}              # hid -> spec
         self.rx_count = 0
         self.reported_excs = []
+        self.express_wire = {}
         self._stream_busy_until = 0
         self._stream_q = []
         self.set_ndn_log_level(bool(cfg.get('debug_log', False)))
@@ -448,14 +464,30 @@ class PipeWorld(World):
         validator = self.make_validator(op.get('validator'), ('express', iid))
         kwargs = dict(can_be_prefix=op.get('cbp', False), must_be_fresh=op.get('mbf', False),
                       lifetime=op.get('lifetime', 4000), nonce=1000 + iid)
-        self.log('express', id=iid, name=comps, cbp=op.get('cbp', False), lifetime=kwargs['lifetime'],
-                 running=bool(self.face.running))
+        ev = self.log('express', id=iid, name=comps, cbp=op.get('cbp', False), lifetime=kwargs['lifetime'],
+                      running=bool(self.face.running))
         self.tok(f'E{iid}')
+        ntx = len(self.tx)
         try:
-            if self.fe == 'v2':
+            if op.get('app_param') is not None:
+                # parameterised, signed Interest: the name the Data must carry includes the parameters digest
+                ap = content_bytes(op['app_param'])
+                if self.fe == 'v2':
+                    coro = self.app.express(comps, validator, app_param=ap, signer=DigestSha256Signer(for_interest=True), **kwargs)
+                else:
+                    coro = self.app.express_interest(comps, app_param=ap, validator=validator,
+                                                     signer=DigestSha256Signer(for_interest=True), **kwargs)
+            elif self.fe == 'v2':
                 coro = self.app.express(comps, validator, **kwargs)
             else:
                 coro = self.app.express_interest(comps, validator=validator, **kwargs)
+            if len(self.tx) > ntx:
+                try:
+                    sent = tlvref.parse_interest(self.tx[ntx])
+                    ev['name'] = [bytes(c) for c in sent.name]      # the full name as sent (with digest components)
+                    self.express_wire[iid] = self.tx[ntx]
+                except tlvref.TlvError:
+                    pass
         except Exception as e:
             self.log('done', id=iid, out='sync-raise', exc=type(e).__name__, where=innermost_ndn_frame(e),
                      msg=exc_brief(e))
@@ -496,10 +528,14 @@ class PipeWorld(World):
 
     def op_rx(self, op):
         ref = op['pkt']
-        if self.variant == 'bare' and isinstance(ref, dict) and ref.get('transparent'):
-            wire = self.mat.inner(ref['pid'])
-        else:
-            wire = self.mat.outer_of(ref)
+        try:
+            if self.variant == 'bare' and isinstance(ref, dict) and ref.get('transparent'):
+                wire = self.mat.inner(ref['pid'])
+            else:
+                wire = self.mat.outer_of(ref)
+        except DanglingRef:
+            self.log('rx-skipped', ref=ref if not isinstance(ref, dict) else ref.get('pid'))
+            return
         if self.face_kind in ('tcp', 'unix'):
             wire = reframe_for_stream(wire)     # a stream transport only ever hands over framed elements
         refid = ref if not isinstance(ref, dict) else ref.get('pid')
